@@ -80,14 +80,14 @@ def _h_blocks(blocks, doc, xhtml):
     return "".join(out)
 
 
-def html_of_blocks(blocks, doc, *, xhtml=False, title="T", head_extra="") -> str:
+def html_of_blocks(blocks, doc, *, xhtml=False, title="T", head_extra="", charset="utf-8", head_lead="") -> str:
     body = _h_blocks(blocks, doc, xhtml)
     p = doc.get("props") or {}
     metas = "".join(f'<meta name="{n}" content={quoteattr(p[k])}{"/" if xhtml else ""}>' for n, k in (("author", "author"), ("description", "description"), ("keywords", "keywords")) if p.get(k) is not None)
     ttl = escape(p["title"]) if p.get("title") is not None else escape(title)
     if xhtml:
         return (f'<?xml version="1.0" encoding="utf-8"?>\n<html xmlns="http://www.w3.org/1999/xhtml"><head><meta charset="utf-8"/><title>{ttl}</title>{metas}{head_extra}</head><body>{body}</body></html>')
-    return f'<!DOCTYPE html>\n<html lang="en"><head><meta charset="utf-8"><title>{ttl}</title>{metas}{head_extra}</head>\n<body>\n{body}</body></html>\n'
+    return f'<!DOCTYPE html>\n<html lang="en"><head>{head_lead}<meta charset="{charset}"><title>{ttl}</title>{metas}{head_extra}</head>\n<body>\n{body}</body></html>\n'
 
 
 def render_html(doc, *, opts=None, **kw) -> bytes:
@@ -97,7 +97,12 @@ def render_html(doc, *, opts=None, **kw) -> bytes:
     hdr = ""
     if doc.get("header") is not None:
         hdr = "<style>." + " .".join(i["tok"] for i in doc["header"] if i["k"] == "t") + " { color: red }</style><script>var f = '" + " ".join(i["tok"] for i in (doc.get("footer") or []) if i["k"] == "t") + "';</script>"
-    return html_of_blocks(blocks, doc, head_extra=hdr).encode("utf-8")
+    opts = opts or {}
+    charset = opts.get("charset") or "utf-8"
+    # late_meta: the charset declaration comes after a long comment (site banners, licence texts), still inside the part of the head a reader scans
+    lead = ("<!-- " + "site banner " * 220 + "-->") if opts.get("late_meta") else ""
+    text = html_of_blocks(blocks, doc, head_extra=hdr, charset=charset, head_lead=lead)
+    return text.encode(charset, errors="xmlcharrefreplace")      # characters outside the charset as numeric character references, as an HTML writer does
 
 
 def render_mhtml(doc, *, cte="quoted-printable", opts=None, **kw) -> bytes:
@@ -223,7 +228,9 @@ def _message(u, idx, doc):
     m["To"] = "Bob Receiver <bob@example.org>"
     m["Subject"] = u.get("name") or f"Message {idx + 1}"
     m["Date"] = f"Fri, {idx + 1:02d} Mar 2024 12:00:00 +0000"
-    m["Message-ID"] = f"<vf-{idx + 1}@example.org>"
+    ids = (doc.get("_opts") or {}).get("message_ids")
+    if ids != "none":          # "none": no Message-ID header at all (drafts, old archives); "same": one id repeated (a mailbox holding copies)
+        m["Message-ID"] = "<vf-1@example.org>" if ids == "same" else f"<vf-{idx + 1}@example.org>"
     m.set_content("\n".join(plain_lines(u["blocks"])) + "\n")
     return m
 
@@ -237,6 +244,7 @@ def render_mbox(doc, *, crlf=False, opts=None, **kw) -> bytes:
     crlf = crlf or bool((opts or {}).get("crlf"))
     from email import policy
     out = []
+    doc = dict(doc, _opts=opts or {})
     for i, u in enumerate(doc["units"]):
         raw = _message(u, i, doc).as_bytes(policy=policy.SMTP).replace(b"\r\n", b"\n")
         body = b"\n".join((b">" + ln if ln.startswith(b"From ") else ln) for ln in raw.split(b"\n"))
